@@ -923,7 +923,7 @@ EXPORT errno_t _wcsnorm_compose_s_chk(wchar_t *restrict dest, rsize_t dmax,
 #endif
 {
     wchar_t *p = (wchar_t *)src;
-    const wchar_t *e = p + *lenp;
+    const wchar_t *e;
     uint32_t cpS = 0;       /* starter code point */
     bool valid_cpS = false; /* if false, cpS isn't initialized yet */
     uint8_t pre_cc = 0;
@@ -944,14 +944,18 @@ EXPORT errno_t _wcsnorm_compose_s_chk(wchar_t *restrict dest, rsize_t dmax,
             *lenp = 0;
         return RCNEGATE(ESNULLP);
     }
-    if (unlikely(lenp == NULL)) {
-        handle_werror(dest, destbos / sizeof(wchar_t),
-                      "wcsnorm_compose_s: lenp is null", ESNULLP);
-        return RCNEGATE(ESNULLP);
+    if (unlikely(dmax == 0)) {
+        invoke_safe_str_constraint_handler("wcsnorm_compose_s: "
+                                           "dmax is 0",
+                                           dest, ESZEROL);
+        if (lenp)
+            *lenp = 0;
+        return RCNEGATE(ESZEROL);
     }
     if (destbos == BOS_UNKNOWN) {
         if (unlikely(dmax > RSIZE_MAX_WSTR)) {
-            *lenp = 0;
+            if (lenp)
+                *lenp = 0;
             handle_werror(dest, RSIZE_MAX_WSTR,
                           "wcsnorm_compose_s: dmax exceeds max", ESLEMAX);
             return ESLEMAX;
@@ -960,18 +964,23 @@ EXPORT errno_t _wcsnorm_compose_s_chk(wchar_t *restrict dest, rsize_t dmax,
     } else {
         const size_t destsz = dmax * sizeof(wchar_t);
         if (unlikely(destsz > destbos)) {
-            *lenp = 0;
+            if (lenp)
+                *lenp = 0;
             handle_werror(dest, destbos / sizeof(wchar_t),
                           "wcsnorm_compose_s: dmax exceeds dest", EOVERFLOW);
             return EOVERFLOW;
         }
     }
-    if (unlikely(src == NULL)) {
-        *lenp = 0;
-        handle_werror(dest, destbos / sizeof(wchar_t),
-                      "wcsnorm_compose_s: src is null", ESNULLP);
+    if (unlikely(lenp == NULL)) {
+        handle_werror(dest, dmax, "wcsnorm_compose_s: lenp is null", ESNULLP);
         return RCNEGATE(ESNULLP);
     }
+    if (unlikely(src == NULL)) {
+        *lenp = 0;
+        handle_werror(dest, dmax, "wcsnorm_compose_s: src is null", ESNULLP);
+        return RCNEGATE(ESNULLP);
+    }
+    e = p + *lenp;
 
     while (p < e) {
         uint8_t cur_cc;
